@@ -367,6 +367,9 @@ func runC19(res *Result, tier string, seed int64, replay string) {
 			// white space between '=' and the opening quote, with a '>' inside the quoted value — before and behind the class
 			`<p class="ka" title = "a>b">one</p>`, `<p title= 'x > y' class="kb">two</p>`, "<span data-x =\t\"1>2\" class='ka'>t</span>", "<a class=\"ka\" href =\n\"u?a>b\" id=z>l</a>",
 			`<p title = "it's > x" class="ka">q</p>`,
+			// downlevel-revealed conditional blocks (two comments with ordinary markup between them: every client but Outlook
+			// shows it) next to a real Outlook-only comment
+			`<!--[if !mso]><!--><p class="ka">revealed</p><!--<![endif]-->`, `<!--[if mso]><p class="zz">hidden</p><![endif]--><!--[if !mso]><!--><span class="kb">shown</span><!--<![endif]-->`,
 			`<p id="a" class="ka" hidden data-e="">mixed</p>`, `<P Class="ka" STYLE="Top:0">case</P>`, `<u class="ka" style="">empty style</u>`, `<em class="ka" style="color:blue">no semicolon</em>`,
 		}
 		carriers := []struct{ name, open, close string }{
@@ -500,8 +503,8 @@ func c19ScanCorrespondence(res *Result, drv *DriverPool, tier string, seed int64
 		hex.EncodeToString([]byte("kb")) + ":" + hex.EncodeToString([]byte("text-decoration:underline;"))
 	pieces := []string{"text ", "a &amp; b", "<p class=\"ka\">", "</p>", "<br class=kb>", "<img src=i.png class='ka'/>", "<!-- don't -->", "<!-- a > b -->", "<!--", "-->", "<!doctype html>",
 		"<?php x ?>", "<a href=http://x/a class=ka>", "</a >", "<", ">", "<b", " class=\"kb\"", "\n", "<td style='x:y' class=\"ka kb\">", "<![CDATA[ <p class=\"ka\"> ]]>", "<p title=\"a > b\" class=ka>", "'", "\"",
-		"<span class=\"zz\">", "<!--[if mso]><p class=\"ka\">o</p><![endif]-->", "<script>if (a < b) { x = '<p class=\"ka\">' }</script>", "<style>.ka > b { }</style>"}
-	frags := []string{"", "plain text", "<p class=\"ka\">one</p>", "<!-- don't --><p class=\"ka\">after</p>", "a < b <p class=ka>", "<p class=\"ka\"", "<!-- unterminated <p class=\"ka\">",
+		"<span class=\"zz\">", "<!--[if mso]><p class=\"ka\">o</p><![endif]-->", "<!--[if !mso]><!-->", "<!--<![endif]-->", "<![endif]-->", "<!--[if !mso]><!--><p class=\"ka\">r</p><!--<![endif]-->", "<script>if (a < b) { x = '<p class=\"ka\">' }</script>", "<style>.ka > b { }</style>"}
+	frags := []string{"<!--[if !mso]><!--><p class=\"ka\">revealed</p><!--<![endif]--><p class=\"kb\">after</p>", "<!--[if mso]><p class=\"ka\">hidden</p><![endif]--><!--[if !mso]><!--><i class=kb>x</i><!--<![endif]-->", "", "plain text", "<p class=\"ka\">one</p>", "<!-- don't --><p class=\"ka\">after</p>", "a < b <p class=ka>", "<p class=\"ka\"", "<!-- unterminated <p class=\"ka\">",
 		"</p><p class=\"kb\">x</p><!---->", "<a b='>' class=ka>", "<a b=\"'\" class=ka>x</a><i class=kb>"}
 	n := 800
 	if tier == "thorough" {
